@@ -4,6 +4,7 @@ use crate::h::Cfg;
 pub mod basic;
 pub mod pipes;
 pub mod prog;
+pub mod selftest;
 pub mod targeted;
 
 pub type Scenario = fn(&Cfg);
@@ -13,6 +14,7 @@ pub fn all() -> Vec<(&'static str, Scenario)> {
     v.extend(basic::list());
     v.extend(pipes::list());
     v.extend(prog::list());
+    v.extend(selftest::list());
     v.extend(targeted::list());
     v
 }
